@@ -389,7 +389,8 @@ def sem_callable(case, text=None):
 # ------------------------------------------------------------------------------------------- (b') from the characters to the value
 PRE_TM = """From Coq Require Import Reals List ZArith.
 From Interval Require Import Tactic.
-From V Require Import lib.Common lib.RLib gen.PotFuncs gen.Combinators model.DefnSyntax model.Lexer model.Meaning.
+From V Require Import lib.Common lib.RLib gen.PotFuncs gen.Combinators model.DefnSyntax model.Lexer model.Meaning model.Ini model.TextInterp.
+Definition file_value (lines : list (list Z)) (sect key : list Z) : option (list Z) := match parse_ini lines with Some st => match sect_of sect st with Some os => opt_of key os | None => None end | None => None end.
 Import ListNotations.
 Fixpoint index_of (tbl : list (list Z)) (s : list Z) (i : nat) : nat := match tbl with [] => i | x :: r => if list_eqb x s then i else index_of r s (S i) end.
 Ltac expose_tm := cbv beta iota zeta delta [%s isum isum_aux skipn INR Nat.sub denote_s fold_left map op_of].
@@ -434,8 +435,11 @@ def tm_goal(i, case, value, tol):
          'Definition isc%d (n : nat) : bool := %s.' % (i, 'Nat.eqb n %d' % ids.index('as.constant') if 'as.constant' in ids else 'false'),
          'Definition NUM%d (z : Z) : R := (match z with %s | _ => 0 end)%%R.' % (i, ' '.join('| %d%%Z => %s' % (j, fc.rq(float(x))) for j, x in enumerate(nums))),
          'Definition FORM%d (l : nat) (ps : list Z) (r : R) : R := (match l, ps with\n%s\n  | _, _ => 0 end)%%R.' % (i, '\n'.join(forms)),
-         'Definition text%d : list Z := %s.' % (i, zs(text))]
-    chain = 'option_map (to_sexpr mk%d isc%d) (read_value (fun s => index_of ids%d s 0%%nat) (fun s => Z.of_nat (index_of nums%d s 0%%nat)) text%d)' % (i, i, i, i, i)
+         'Definition lines%d : list (list Z) := [%s].' % (i, '; '.join(zs(l) for l in sem_text(case).split('\n')[:-1]))]
+    sect_key = {'Pair': ('Pair', 'Al-Cu'), 'EAM-Embed': ('EAM-Embed', 'Al'), 'EAM-Density': ('EAM-Density', 'Al'), 'EAM-Density-FS': ('EAM-Density', 'Al->Cu')}[case['section']]
+    # the very file the implementation reads: lines -> sections (model/Ini.v) -> the entry's value -> tokens -> tree -> meaning
+    chain = ('match file_value lines%d %s %s with Some v => option_map (to_sexpr mk%d isc%d) (read_value (fun s => index_of ids%d s 0%%nat) (fun s => Z.of_nat (index_of nums%d s 0%%nat)) v) | None => None end'
+             % (i, zs(sect_key[0]), zs(sect_key[1]), i, i, i, i))
     g = ('Goal True. Proof. first [ assert (exists E, %s = Some (Some E)) by (vm_compute; eexists; reflexivity); '
          'assert (forall E, %s = Some (Some E) -> (Rabs (denote_s FORM%d NUM%d E %s - %s) <= %s)%%R) by (intros E HE; vm_compute in HE; injection HE as <-; cbv beta iota delta [FORM%d NUM%d]; expose_tm; interval with (i_prec 120, i_depth 5)) '
          '| idtac "PFAIL %d" ]. exact I. Qed.' % (chain, chain, i, i, fc.rq(case['r']), fc.rq(value), fc.rq(tol), i, i, i))
